@@ -903,7 +903,9 @@ func (db *DB) Close(ctx context.Context) (err error) {
 	// write, checkpoint or truncate the WAL before the next Open(). Forget the
 	// in-memory cursor so that the next sync re-derives it from the last LTX
 	// file instead of mistaking a foreign truncation for our own checkpoint.
-	db.syncState = syncState{}
+	// The exception is dbAheadOfSync: if the final catch-up copy failed, the
+	// database file is still ahead of the synced position after a reopen.
+	db.syncState = syncState{dbAheadOfSync: db.syncState.dbAheadOfSync}
 	db.mu.Unlock()
 
 	if sqlDB != nil {
